@@ -114,6 +114,7 @@ def run(out: common.Outcome, explore: int = 0) -> None:
     # beyond the letter of F: a loop (single event, two events, or only a fork) as the FIRST element of an outer loop body that
     # can also be by-passed; frozen pool harness/pool/Y.jsonl (36 shapes), always all of them
     recs = recs + L.load_extra_pool("Y")
+    recs = recs + L.select(L.load_extra_pool("Z"), out.seed + 8, out.tier, 40)   # a fork branch that BEGINS with a loop (60 shapes)
     recs = recs + [r for r in L.load_corpus_pool() if has_loop(r["d"])]      # the loop cases of the corpus
     variants = (0, 4) if quick else (0, 1, 4, 5)
     items = []
